@@ -244,7 +244,11 @@ func (c *ServerChannel) EstablishSession(
 			negEncryptOpts = append(negEncryptOpts, v.(SessionEncryption))
 		}
 
-		if len(negCompOpts) > 1 || len(negEncryptOpts) > 1 {
+		// The negotiation is also required when the only acceptable encryption is not the one
+		// currently in use by the transport (for instance, TLS only over a plain TCP connection)
+		mustUpgrade := len(negEncryptOpts) == 1 && negEncryptOpts[0] != c.transport.Encryption()
+
+		if len(negCompOpts) > 1 || len(negEncryptOpts) > 1 || mustUpgrade {
 			// Negotiate the session options
 			if err = c.negotiateSession(ctx, negCompOpts, negEncryptOpts); err != nil {
 				return err
